@@ -7,7 +7,8 @@ from .specs import split_role, split_atom, tree_vars
 
 
 def has(model, r):
-    return model._has_role(r)
+    import re
+    return any(re.fullmatch(p, r) is not None for p in list(model.roles) + [model.top_role, model.concept_role])
 
 
 def inv_role(model, r):
